@@ -277,7 +277,9 @@ Check C19_hash_reads_merged_inputs : forall release bi bu d st inputs p n,
 Print Assumptions C19_hash_reads_merged_inputs.
 
 (* FunctionDef::call re-reads `inputs` from the CALLER's chain: the body's chain binds `inputs`
-   to whatever the call site sees (unless a parameter is itself called `inputs`). *)
+   to whatever the call site sees (unless a parameter is itself called `inputs`).
+   (F9 repaired: this arm — the accumulator starts with `("inputs", i)` — is taken only when the function
+   did not capture `inputs`; a captured `inputs` is found through the shared scope frame instead.) *)
 Theorem C19_callee_sees_callers_inputs : forall ps args fr i self local parent,
   lookup fr "inputs" = Some i ->
   bind_params ps 0 args (("inputs", i) :: self) = Some local ->
@@ -295,7 +297,9 @@ Print Assumptions C19_callee_sees_callers_inputs.
    (its keyword list lacks it), and a function called inside then reads the shadowing record:
    `f = () => [#k, inputs.k]` gives [5, 5] inside `do { inputs = {k: 5}; return f() }` and [1, 1]
    outside.  `#k = inputs.k` holds at both program points (C19 is not violated); what differs
-   between the call sites is C04's subject. *)
+   between the call sites is C04's subject.
+   (F9 repaired: `f` captured `inputs` at creation — `#k` and `inputs.k` both make `inputs` a free name
+   of the body — so the captured record now outranks the call site's: [1, 1] at BOTH call sites.) *)
 Definition f9_prog : list stmt :=
   [SExpr (EAssign "f" (ELam [] (EList [Cm [] (EInRef "k") None; Cm [] (EDot (EId "inputs") "k") None])));
    SOut (EAssign "a" (EDo [Cm [] (EAssign "inputs" (ERec [Cm [] (REntry (KStatic "k") (n 5)) None])) None]
@@ -303,5 +307,5 @@ Definition f9_prog : list stmt :=
    SOut (EAssign "b" (ECall (EId "f") []))].
 Example C19_f9_do_block_shadows_inputs :
   show_cli (cli_run eval_release MInline false None [IObj [("k", SNum (num_of_Z 1))]] (Some f9_prog))
-  = "EXIT:0;OUT:{61:L[N4014000000000000,N4014000000000000],62:L[N3ff0000000000000,N3ff0000000000000]};FILE:-".
+  = "EXIT:0;OUT:{61:L[N3ff0000000000000,N3ff0000000000000],62:L[N3ff0000000000000,N3ff0000000000000]};FILE:-".
 Proof. vm_compute. reflexivity. Qed.
